@@ -76,6 +76,36 @@ theorem tie_Multi_after_unsubscribe (g : MultiSubscription) (c : Nat → Bool) (
   · rs_simp [MultiSubscription.is_closed]
   · rs_simp [MultiSubscription.append]
 
+theorem tieT_Multi_retain (g : MultiSubscriptionThreads) :
+    MultiSubscriptionThreads.retain g = some (g.map (List.filter Option.isSome), []) := by
+  cases g <;> rs_simp [MultiSubscriptionThreads.retain]
+
+theorem tieT_Multi_append (g : MultiSubscriptionThreads) (s : Rs.Sub) :
+    MultiSubscriptionThreads.append g s =
+      match g with
+      | some v => some (some (v ++ [some s]), [])
+      | none => some (none, [Rs.Ev.unsub s.id]) := by
+  cases g <;> rs_simp [MultiSubscriptionThreads.append]
+
+theorem tieT_Multi_is_closed (g : MultiSubscriptionThreads) (c : Nat → Bool) :
+    MultiSubscriptionThreads.is_closed g c =
+      match g with
+      | none => true
+      | some v => v.all (fun u => match u with | some s => c s.id | none => true) := by
+  cases g with
+  | none => rs_simp [MultiSubscriptionThreads.is_closed]
+  | some v => rs_simp [MultiSubscriptionThreads.is_closed]; rfl
+
+theorem tieT_Multi_unsubscribe (g : MultiSubscriptionThreads) :
+    MultiSubscriptionThreads.unsubscribe g =
+      some (none, ((g.getD []) |> liveEntries).map (fun s => Rs.Ev.unsub s.id)) := by
+  cases g with
+  | none => rs_simp [MultiSubscriptionThreads.unsubscribe, liveEntries]
+  | some v =>
+    rs_simp [MultiSubscriptionThreads.unsubscribe]
+    rw [multi_unsub_loop none _ (by intro p u; cases u <;> simp) v []]
+    simp
+
 theorem tie_Zip_sub_unsubscribe (g : ZipSubscription) :
     ZipSubscription.unsubscribe g = some (g, [Rs.Ev.unsub g.a.id, Rs.Ev.unsub g.b.id]) := by
   rcases g with ⟨a, b⟩; rs_simp [ZipSubscription.unsubscribe]
